@@ -109,4 +109,23 @@ def renderAt : Exp → Parens → Nat → List Token
 /-- the printer: minimal parentheses plus the redundant ones chosen by `ps` -/
 def render (e : Exp) (ps : Parens) : List Token := renderAt e ps 0
 
+/-! ### multi-valued expressions in expression lists (manual §3.4.12)
+
+Function calls (incl. method calls) and `...` may deliver any number of values.  In a list of
+expressions every expression except the last is adjusted to exactly one value; the last one
+delivers all its values — unless it is enclosed in parentheses, which always yields one value. -/
+
+inductive ListItem where
+  | single                          -- any single-valued expression
+  | multi (m : Nat) (paren : Bool)  -- a call / `...` delivering `m` values, possibly parenthesised
+  deriving DecidableEq, Repr
+
+/-- number of values an expression list delivers (return list, argument list, positional table
+    fields, right-hand side of `=` / `local`, `for … in` list) -/
+def explistCount : List ListItem → Nat
+  | [] => 0
+  | [.single] => 1
+  | [.multi m paren] => if paren then 1 else m
+  | _ :: r => 1 + explistCount r
+
 end GoluaVerif.Spec.Grammar
